@@ -162,15 +162,16 @@ def binary (op : Op) (l r : Val) : Expect :=
   -- bytes
   | .byte a, .byte b => if isArith op then byteArith op a.toNat b.toNat else .any
   -- integer/byte mixes are integer operations
-  | .int a, .byte b => if isArith op then intArith op a.toInt b.toNat else if isBitwise op then .error else .any
-  | .byte a, .int b => if isArith op then intArith op a.toNat b.toInt else if isBitwise op then .error else .any
+  -- (ordering a byte against an integer is none of the listed combinations: a runtime error)
+  | .int a, .byte b => if isArith op then intArith op a.toInt b.toNat else .error
+  | .byte a, .int b => if isArith op then intArith op a.toNat b.toInt else .error
   -- any float operand: IEEE double arithmetic on the converted operands
   | .float a, .float b => if isArith op then floatArith op a b else if isRel op then relFloat op a b else .error
   | .int a, .float b => if isArith op then floatArith op a.toFloat b else if isRel op then relFloat op a.toFloat b else .error
   -- an integer divisor is zero when the integer is (the statement's "division or modulo by zero")
   | .float a, .int b => if isArith op then floatArithZ op a b.toFloat (decide (b.toInt = 0)) else if isRel op then relFloat op a b.toFloat else .error
-  | .float a, .byte b => if isArith op then floatArith op a b.toFloat else if isRel op then .any else .error
-  | .byte a, .float b => if isArith op then floatArith op a.toFloat b else if isRel op then .any else .error
+  | .float a, .byte b => if isArith op then floatArith op a b.toFloat else .error
+  | .byte a, .float b => if isArith op then floatArith op a.toFloat b else .error
   -- strings and chars
   | .str a, .str b =>
     if op == .add then .value (.str (a ++ b)) else if isRel op then relOrd op a b else .error
